@@ -201,6 +201,8 @@ def run_read(vec, rate, width, eid, workdir):
                 rf = gen.buildSineWaveGenerator(200, 3)
             keep = [(secs(x["s"], rate), secs(x["e"], rate)) for x in a["keep"]] or None
             dele = [(secs(x["s"], rate), secs(x["e"], rate)) for x in a["delete"]] or None
+            if eid % 3 == 1:
+                af.readframes(2)              # the handle has been read from before: its position is not 0
             try:
                 ret, aligned = codec.from_bytes(audio.readFramesAtTimes(af, keep, dele, rf))
             finally:
